@@ -9,7 +9,7 @@
    sequential order of the same operations (linearizability), and the invariant holds whenever the lock is
    free. An operation split in two regions (check under one acquisition, act under the next) loses this:
    [check_then_act_refuted]. *)
-From NG Require Import Common.Tactics Mempool.Model Mempool.Spec Mempool.Lemmas Mempool.Main.
+From NG Require Import Common.Tactics Mempool.Model Mempool.Spec Mempool.Lemmas Mempool.Main Mempool.Variant.
 From Coq Require Import Sorting.Permutation.
 Open Scope N_scope.
 
@@ -210,31 +210,32 @@ Proof.
     rewrite nth_error_map. rewrite (nth_error_nth' ops dummy_op H). reflexivity.
 Qed.
 
-(* ... and the invariant holds whenever the lock is free: after every prefix of every schedule *)
-Theorem concurrent_ops_inv : forall U, good_universe U -> forall st ops sched,
+(* ... and the invariant holds whenever the lock is free: after every prefix of every schedule (for both accepted
+   behaviours of the repaired code, Variant.v) *)
+Theorem concurrent_ops_inv : forall U, good_universe U -> forall follow st ops sched,
   bal_ok (st_bal st) -> Inv U (st_bal st) (st_pool st) -> Forall (op_ok U) ops ->
-  let st' := fst (exec sched (pool_conf fixed_cfg st ops)) in
+  let st' := fst (exec sched (pool_conf (repaired follow) st ops)) in
   bal_ok (st_bal st') /\ Inv U (st_bal st') (st_pool st').
 Proof.
-  intros U GU st ops sched B I F.
+  intros U GU follow st ops sched B I F.
   assert (G : forall sched (c : @conf state (option res)),
              st_ok U (fst c) ->
-             Forall (fun t => snd t = [] \/ exists o, op_ok U o /\ snd t = snd (op_thread fixed_cfg o)) (snd c) ->
+             Forall (fun t => snd t = [] \/ exists o, op_ok U o /\ snd t = snd (op_thread (repaired follow) o)) (snd c) ->
              st_ok U (fst (exec sched c))).
   { induction sched0 as [|i r IH]; intros [s ths] S T; simpl in *; auto.
     apply IH.
     - unfold sched_step; simpl. destruct (nth_error ths i) as [[l rs]|] eqn:E; simpl; auto.
       rewrite Forall_forall in T. destruct (T (l, rs) (nth_error_In _ _ E)) as [X|(o & Ho & X)]; simpl in X; subst rs; simpl; auto.
-      unfold run_region; simpl. pose proof (step_ok U GU s o S Ho) as [_ S'].
-      destruct (step fixed_cfg s o) as [rr s']; simpl in *; auto.
+      unfold run_region; simpl. pose proof (step_ok_both U GU follow s o S Ho) as [_ S'].
+      destruct (step (repaired follow) s o) as [rr s']; simpl in *; auto.
     - unfold sched_step; simpl. destruct (nth_error ths i) as [[l rs]|] eqn:E; simpl; auto.
       destruct (run_region s (l, rs)) as [s' t'] eqn:R; simpl.
-      assert (Ht : snd t' = [] \/ exists o, op_ok U o /\ snd t' = snd (op_thread fixed_cfg o)).
+      assert (Ht : snd t' = [] \/ exists o, op_ok U o /\ snd t' = snd (op_thread (repaired follow) o)).
       { unfold run_region in R; simpl in R. destruct rs as [|f rs]; [inv R; auto|].
         rewrite Forall_forall in T. destruct (T (l, f :: rs) (nth_error_In _ _ E)) as [X|(o & Ho & X)]; simpl in X; [discriminate|].
-        inv X. destruct (step fixed_cfg s o) as [rr s'']. inv R. auto. }
+        inv X. destruct (step (repaired follow) s o) as [rr s'']. inv R. auto. }
       apply Forall_upd; auto. }
-  apply (G sched (pool_conf fixed_cfg st ops)); [split; auto|].
+  apply (G sched (pool_conf (repaired follow) st ops)); [split; auto|].
   unfold pool_conf; simpl. apply Forall_forall. intros t H. apply in_map_iff in H as (o & <- & Ho).
   right. exists o. split; auto. rewrite Forall_forall in F; auto.
 Qed.
